@@ -108,7 +108,8 @@ let run () =
        | G g, ["lputf"; u; t; f; k; ns; len] -> gres "lputf" (ltbl_step !sz g (LPutf (b u, b t, b f, ni (int k), ni (int ns), ni (int len))) n al)
        | G g, ["lget"; p] -> gres "lget" (ltbl_step !sz g (LGet (nat_of_int (int p))) n al)
        | G g, ["lgetmulti"; f; k] -> gres "lgetmulti" (ltbl_step !sz g (LGetmulti (b f, ni (int k))) n al)
-       | G g, ["lremove"; f; k] -> gres "lremove" (ltbl_step !sz g (LRemove (b f, ni (int k))) n al)
+       | G g, ["lremove"; f; k] -> gres "lremove" (ltbl_step !sz g (LRemove (b f, ni (int k), None)) n al)
+       | G g, ["lremove"; f; k; own] -> gres "lremove" (ltbl_step !sz g (LRemove (b f, ni (int k), Some (nat_of_int (int own)))) n al)
        | G g, ["lnext"; p] -> gres "lnext" (ltbl_step !sz g (LNext (nat_of_int (int p))) n al)
        (* list / queue / stack / grow *)
        | G g, ["saddat"; p; ds; loc] -> gres "saddat" (list_step !sz g (SAddat (nat_of_int (int p), ni (int ds), b loc)) n al)
